@@ -171,6 +171,18 @@ def check(case, ctx):
             if a[0] != b[0] or (a[0] == 'ok' and a[1] != b[1]):
                 ctx.fail('reused-annotation-differs', a[1], b[1], call=['condense_to_mass_mods', s, plus, prec])
                 break
+    # ... and after the object has been asked for its mass, composition and fragments (queries, not editors)
+    st, obj = lib.call(p.parse, s)
+    if st == 'ok':
+        for q in (lambda: p.mass(obj), lambda: p.comp_mass(obj), lambda: p.mass(obj, monoisotopic=False),
+                  lambda: p.fragment(obj, 'y', 1), lambda: p.mz(obj, charge=2)):
+            lib.call(q)
+        a = lib.call(p.condense_to_mass_mods, s, False, 5)
+        b = lib.call(p.condense_to_mass_mods, obj, False, 5)
+        ctx.evals += 7
+        if a[0] != b[0] or (a[0] == 'ok' and a[1] != b[1]):
+            ctx.fail('reused-annotation-differs', a[1], b[1], call=['condense_to_mass_mods', s, False, 5],
+                     note='after mass / comp_mass / fragment / mz on the same annotation object')
     ctx.outcome = s
 
 
